@@ -359,9 +359,13 @@ class SimpleJSONRPCDispatcher(SimpleXMLRPCDispatcher, object):
                 fault = Fault(
                     -32603,
                     "{0}:{1}".format(type(ex).__name__, ex),
+                    rpcid=request.get("id"),
                     config=config,
                 )
                 _logger.error("Error calling method %s: %s", method, fault)
+                if is_notification:
+                    # Notifications are never answered, even on error
+                    return None
                 return fault.dump()
 
             if is_notification:
@@ -377,7 +381,10 @@ class SimpleJSONRPCDispatcher(SimpleXMLRPCDispatcher, object):
         except Exception as ex:
             # JSON conversion exception
             fault = Fault(
-                -32603, "{0}:{1}".format(type(ex).__name__, ex), config=config
+                -32603,
+                "{0}:{1}".format(type(ex).__name__, ex),
+                rpcid=request["id"],
+                config=config,
             )
             _logger.error("Error preparing JSON-RPC result: %s", fault)
             return fault.dump()
